@@ -12,13 +12,13 @@ def check(pid, text, note, technique, ref):
 check("C02", "Bounded symbolic verification: evaluate_objective (the only evaluation choke point), the x0-sampling block, soft-restart admission and one whole main-loop iteration from an arbitrary valid state are executed symbolically; z3 proves for all counter values, budgets and callback results that calls = nf increase <= maxfun, point numbers advance once per point, samples of a point get the identical x, and log numbering is consecutive. An AST scan shows objfun is called nowhere else; the hard-restart loop threads the counters (OUTER).",
       "Numerics stubbed by contracts (listed in evidence); <=3 samples per point; n=1..2, m=1..2; one inductive step (INV in DESIGN section 3) covers histories of any length; init.run_in_parallel ordering not covered.",
       "symbolic execution + SMT (z3 QF_UFLIA/LRA), inductive one-step invariant, AST call-site scan", "DESIGN.md section 4 C02")
-check("C03", "Bounded symbolic verification of ghost-record integrity: after one whole main-loop iteration from any valid state every interpolation slot, the saved slot and the tuple returned at every exit is one whole evaluated record (x, mean residual, sample count, evaluation number) and obj = sumsq(resid)+h(x); same for the x0 exit and the merge/un-scaling of hard-restart runs.",
+check("C03", "Bounded symbolic verification of ghost-record integrity: after one whole main-loop iteration from any valid state every interpolation slot, the saved slot and the tuple returned at every exit is one whole evaluated record (x, mean residual, sample count, evaluation number) and obj = sumsq(resid)+h(x); same for the x0 exit and the merge/un-scaling of hard-restart runs; geometry_step, soft_restart (incl. growing the point set) and add_new_direction_while_growing also as stand-alone actions from any valid state with up to 2-3 samples per point; the Model operations with a regulariser and internal scaling (h sees the user's units).",
       "Numerics stubbed by contracts; x compared in real arithmetic (the base-point round trip is an identity over the reals); n=1, m=1, 2-3 points; the evaluation number given to the first point of a hard-restarted run is decided by the run-start harness.",
       "symbolic execution + SMT (z3 LRA+UF with NRA refinement), ghost records, inductive one-step invariant", "DESIGN.md section 4 C03")
-check("C04", "Bounded symbolic verification: over one whole main-loop iteration from any valid state (every path, every exit site) the value get_final_results reports never increases and is <= the objective of every point evaluated in that iteration; the hard-restart merge never returns a worse value than any run. Induction gives soln.obj <= f at every evaluated point.",
+check("C04", "Bounded symbolic verification: over one whole main-loop iteration from any valid state (every path, every exit site) the value get_final_results reports never increases and is <= the objective of every point evaluated in that iteration; the hard-restart merge never returns a worse value than any run; calculate_ratio reports a positive ratio only for a trial point that is better in sum(r^2)+h; geometry_step / soft_restart / add_new_direction_while_growing as stand-alone actions. Induction gives soln.obj <= f at every evaluated point.",
       "Deterministic objective, one sample per point (as the property states); numerics stubbed by contracts; products abstracted by UF with sign axioms (over-approximation), counterexamples refined under exact NRA and replayed; n=1, m=1.",
       "symbolic execution + SMT (z3 LRA+UF), ghost best-value monitor, inductive one-step invariant", "DESIGN.md section 4 C04")
-check("C07", "Bounded symbolic verification of the whole argument/parameter validation of solve (every argument given or not, every user parameter key x value kind with symbolic magnitude, contradictory option pairs): no exception except ValueError for an unknown key; BAD(input) => input-error result with zero evaluations that prints; GOOD(input) => accepted; documented EXIT_* constants exposed.",
+check("C07", "Bounded symbolic verification of the whole argument/parameter validation of solve (every argument given or not, every user parameter key x value kind with symbolic magnitude, contradictory option pairs): no exception except ValueError for an unknown key; BAD(input) => input-error result with zero evaluations that prints; GOOD(input) => accepted; documented EXIT_* constants exposed; soft_restart / geometry_step never raise for any move_xk, num_geom_steps in [0,4] and point-set size; CrossHair (second engine) confirms the parameter checkers of params.py over all paths.",
       "Oracle = predicate BAD written from the property text and a golden parameter table; n<=2; |x0|, rhobeg, rhoend <= 1e15; a 1e-9 relative band around float thresholds, bool-for-int and rhobeg==rhoend are unspecified; solve_main stubbed (validation only).",
       "symbolic execution + SMT (z3 linear integer/real arithmetic)", "DESIGN.md section 4 C07")
 check("C10", "Bounded symbolic verification: obligations attached to every exit of the real code (classified by the message the real ExitInformation carries) over one main-loop iteration from any state, the x0 block, evaluate_objective, soft_restart admission and the hard-restart loop: each message implies the fact it states; nruns is incremented exactly once per run end; soln.nruns = number of runs; success never with a non-finite objective (extended reals).",
@@ -30,26 +30,26 @@ check("C15", "Bounded symbolic verification of the real dykstra loop with arbitr
 check("C17", "Bounded symbolic verification: every Model mutator and save_point/get_final_results is executed symbolically from an arbitrary state satisfying the bookkeeping invariant; z3 shows the invariant and each operation's contract hold for all real/NaN/inf values. One inductive step covers operation sequences of any length.",
       "Extended reals (NaN, +-inf exact; finite rounding/overflow not modelled); n<=2, m<=2, num_pts<=4, sample counts<=3; regulariser family lam*sum|x_i-c_i|.",
       "symbolic execution + SMT (z3 QF_NRA with NaN/inf flags), inductive one-step invariant", "DESIGN.md section 4 C17")
-check("C18", "Bounded symbolic verification: INV-radii re-established at every continue of one whole main-loop iteration from any state (STEP), exact QF_NRA harnesses of Controller.reduce_rho and of the sliced 'update delta' block with every tr_radius parameter symbolic in its legal range (ratio NaN/inf included), diagnostic-table row obligations.",
+check("C18", "Bounded symbolic verification: INV-radii re-established at every continue of one whole main-loop iteration from any state (STEP), exact QF_NRA harnesses of Controller.reduce_rho and of the sliced 'update delta' block with every tr_radius parameter symbolic in its legal range (ratio NaN/inf included), diagnostic-table row obligations; soft_restart as a stand-alone action with the switch, increment and room of restarts.increase_npt arbitrary (never more than restarts.max_npt points).",
       "rhobeg <= 1e9 (beyond, the 1e10 cap is exceeded: known finding); restarts.rhoend_scale = 1; pandas not executed (table built from the checked lists).",
       "symbolic execution + SMT (z3 LRA+UF and QF_NRA), AST slicing of the radius-update block", "DESIGN.md section 4 C18")
-check("C20", "Bounded symbolic verification of the real to_dict/from_dict/__str__/replace_nan_with_none over result objects with symbolic extended-real fields (NaN/inf/finite, optional fields present or absent, diagnostic table): plain and strict JSON data, every field reproduced with None<->NaN, str never raises and agrees field by field.",
+check("C20", "Bounded symbolic verification of the real to_dict/from_dict/__str__/replace_nan_with_none over result objects with symbolic extended-real fields (NaN/inf/finite, optional fields present or absent, diagnostic table): plain and strict JSON data, every field reproduced with None<->NaN, str never raises and agrees field by field; at the x0 exit of solve_main the residual handed to the result is the solver's own float64 array (integer-valued objective, caller mutating its arrays afterwards).",
       "json modelled as identity on plain data + strictness predicate, pandas by a list-backed stand-in (replays use the real modules); arrays <= 3x2.",
       "symbolic execution + SMT (z3 LRA with NaN/inf flags)", "DESIGN.md section 4 C20")
 
 check("C01", "Exactness decided in genuine IEEE binary64 (z3 QF_FP) on the real Model.__init__/shift_base/as_absolute_coordinates/xpt/xopt and on remove_scaling with the scaling record built by the real solve prologue: every point handed out in absolute coordinates lies in [xl,xu] with no tolerance (per coordinate; the code on this path is elementwise, so all n). Glue in real arithmetic: every x evaluated in one main-loop iteration from any state (STEP), in the run start incl. the coordinate initialisation (RUN-START) and the x0 handed to every run (OUTER) lies in the box.",
       "|values| <= 1000 and <= 2 base shifts in the binary64 kernel (k shifts = same formula on a shifted state); NaN inputs excluded; glue harnesses: numerics stubbed by contracts, n=1..2.",
       "symbolic execution + SMT (z3 QF_FP binary64 bit-precise; LRA+UF for the glue)", "DESIGN.md section 4 C01")
-check("C06", "PARTIAL. Decided by symbolic execution of the real ctrsbox_sfista / Controller.trust_region_step / evaluate_criticality_measure: h and prox_uh are called with the user's extra arguments unchanged (len 0..2) without TypeError; the box handed to the regularised subproblem is the true bound box in the coordinates of the point handed over; the step handed back never has a negative predicted reduction. NOT decided: the convergence clause (within 1e-3*(1+F*) and success).",
+check("C06", "PARTIAL. Decided by symbolic execution of the real ctrsbox_sfista / Controller.trust_region_step / evaluate_criticality_measure: h and prox_uh are called with the user's extra arguments unchanged (len 0..2) without TypeError; the box handed to the regularised subproblem is the true bound box in the coordinates of the point handed over; the step handed back never has a negative predicted reduction (also with internal scaling); every Model operation that stores an objective value adds h at the stored point in the user's units; calculate_ratio's actual reduction includes the change of h; the small-objective test at x0 includes h. NOT decided: the convergence clause (within 1e-3*(1+F*) and success).",
       "Convergence over whole runs is out of reach of bounded symbolic execution (DESIGN section 6); S-FISTA loop cut to 2 iterations; n<=2.",
       "symbolic execution + SMT (z3 LRA+UF / QF_NRA), argument-capturing stubs", "DESIGN.md section 4 C06")
-check("C08", "PARTIAL. Extended-real (NaN/+-inf flags) symbolic execution: one whole main-loop iteration from any state with a bad value possible at every evaluation of it (no exception from the real code unless opted in, a finite best value survives and never increases, success never with a non-finite objective), exception propagation from the objective (no further evaluation), the Model selection operations, the overflow guard. NOT decided: termination of a whole run under a fault; behaviour of LAPACK on non-finite data (contract: reported as failure).",
+check("C08", "PARTIAL. Extended-real (NaN/+-inf flags) symbolic execution: one whole main-loop iteration from any state with a bad value possible at every evaluation of it (no exception from the real code unless opted in, a finite best value survives and never increases, success never with a non-finite objective), exception propagation from the objective (no further evaluation), the Model selection operations, the overflow guard, trsbox handed a NaN/inf model (finite step inside the box, no exception), a non-finite model gradient reaching the diagnostic table, the hard-restart merge with NaN/inf run results, soft_restart / add_new_direction as stand-alone actions. NOT decided: termination of a whole run under a fault; behaviour of LAPACK on non-finite data (contract: reported as failure).",
       "Finite rounding/overflow not modelled; numerics stubbed by contracts; n=1, m=1.",
       "symbolic execution + SMT (z3 LRA+UF with NaN/inf flags), fault as a symbolic input", "DESIGN.md section 4 C08")
 check("C09", "Provenance by symbolic execution: every x evaluated in one main-loop iteration with projections equals an output of the alternating projection over the model's projector list (box last); the real solve prologue appends the box projector last (= clip(lower,upper)), disables the internal bounds, projects x0 and starts from the projection; C15's stop-rule lemma (re-run for p = user sets + box) gives the sqrt(p*tol) distance and the binary64 pbox lemma the exact box.",
       "dykstra stubbed by the contract proved in C15; one user projector; |x0|, |bounds| <= 1e15; n<=2 (3 thorough).",
       "symbolic execution + SMT (z3 LRA+UF, QF_NRA, QF_FP), provenance of evaluated points", "DESIGN.md section 4 C09")
-check("C11", "PARTIAL. Semi-symbolic: on each member of a concrete point-geometry family the real fitting code (interpolate_mini_models_svd -> factorise/solve_geom_system) is executed with symbolic linear data r = A y - b and z3 shows J = A for all (A,b); evaluation numbers returned with a Jacobian are a fit-time snapshot of slots that carry their true numbers (STEP, RUN-START); solve un-scales the columns exactly once and keeps Jacobian and numbers of the same run (OUTER).",
+check("C11", "PARTIAL. Semi-symbolic: on each member of a concrete point-geometry family the real fitting code (interpolate_mini_models_svd -> factorise/solve_geom_system) is executed with symbolic linear data r = A y - b and z3 shows J = A for all (A,b); evaluation numbers returned with a Jacobian are a fit-time snapshot of slots that carry their true numbers (STEP, RUN-START); the Jacobian and the numbers handed back come from the same fit and the same record as x (get_final_results, every exit of STEP); solve un-scales the columns exactly once and keeps Jacobian and numbers of the same run (OUTER).",
       "LAPACK QR of the concrete matrix trusted, triangular solve = exact substitution; tolerance 1e-7*|data| on a well-conditioned family stands for conditioning-scaled rounding (not decided in general); n<=3.",
       "semi-symbolic execution + SMT (z3 LRA), ghost evaluation numbers", "DESIGN.md section 4 C11")
 check("C12", "QF_NRA symbolic execution of the real trsbox/alt_trust_step/d_within_bounds: n=1 with everything symbolic, n=2 semi-symbolic (concrete model family, symbolic box): step in the box, in the ball (1e-8), model not increased, gnew = g + H d, at least Cauchy decrease for every admissible steepest-descent length; binary64: the clipped point is exactly in the box.",
@@ -64,7 +64,7 @@ check("C14", "Symbolic execution of the real initialise_coordinate_directions fr
 check("C16", "PARTIAL. Semi-symbolic (concrete geometry family, symbolic data): the real fitting code satisfies the interpolation equations (npt = n+1 and growing npt < n+1) and the normal equations (npt > n+1) for ALL data; fully symbolic QF_NRA: base shifts leave the assembled gradient and Hessian unchanged (model values at fixed absolute points: C17 harness).",
       "Lagrange identities are concrete evaluations and not claimed; rounding proportional to conditioning not decided; LAPACK QR trusted; n<=3.",
       "semi-symbolic execution + SMT (z3 LRA), QF_NRA identities", "DESIGN.md section 4 C16")
-check("C19", "Ownership-tracking symbolic execution of the real solve prologue / restart loop / packaging on caller-owned arrays: no in-place write reaches x0, the bound arrays, user_params, the projections list or a mutable default; RNG-reachability obligations in one main-loop iteration (STEP), the run start (RUN-START) and the projections initialisation: random generators are reached/used only when an option documented as random is on.",
+check("C19", "Ownership-tracking symbolic execution of the real solve prologue / restart loop / packaging on caller-owned arrays: no in-place write reaches x0, the bound arrays, user_params, the projections list or a mutable default; RNG-reachability obligations in one main-loop iteration (STEP), the run start (RUN-START) and the projections initialisation: random generators are reached/used only when an option documented as random is on (incl. soft_restart with every setting of restarts.increase_npt); in the rank-repair loops of the projections initialisation an unsuccessful random sign flip leaves no trace in the directions evaluated.",
       "Bit-identical repetition follows from 'no RNG and no hidden state' for the remaining pure code (not separately executed twice); n<=2.",
       "symbolic execution + SMT (z3), ownership tags on the array model", "DESIGN.md section 4 C19")
 
